@@ -18,6 +18,8 @@
 import Vita.C03.Lemmas
 import Vita.C03.Sig
 import Vita.C03.EffSound
+import Vita.C03.SigPath
+import Vita.C03.GenSigPath
 import Vita.Common.Murmur
 
 namespace Vita.C03
@@ -465,5 +467,130 @@ example : SigInv (deHash murmurBytes)
       (fun s op => op.apply murmurBytes s) (⟨[3, 4], HashLike.empty⟩ : Vec Vita.Murmur.Hash)) :=
   de_sig_inv_reachable murmurBytes _ _
 end example2
+
+/-! ## Part C — concurrent signature computations do not interfere
+
+Signatures are computed by evaluator / evolution code that may run on several threads.  The model
+(`Vita.C03.SigPath`): threads are sequences of steps on a memory; a step is `Confined F R` when it
+writes only inside `F` and what it writes depends only on `F ∪ R`. -/
+
+section sigpath
+open SigPath
+
+/-- Two threads with disjoint write footprints that only share a region nobody writes: in every
+    interleaving, thread A's footprint (and the read-only region) ends up exactly as when A runs
+    alone — from any two memories that agree on `F_A ∪ R`. -/
+theorem interleave_agree {Loc Val : Type} (FA FB R : Loc → Prop)
+    (disj : ∀ l, FA l → ¬ FB l) (roB : ∀ l, R l → ¬ FB l)
+    {A B S : List (Step Loc Val)} (h : Interleave A B S) :
+    (∀ s ∈ A, Confined FA R s) → (∀ s ∈ B, Confined FB R s) →
+    ∀ m m' : Mem Loc Val, (∀ l, FA l ∨ R l → m l = m' l) →
+      ∀ l, FA l ∨ R l → run S m l = run A m' l := by
+  induction h with
+  | nil => intro _ _ m m' hag l hl; exact hag l hl
+  | @left a A B S _ ih =>
+    intro hA hB m m' hag l hl
+    show run S (a m) l = run A (a m') l
+    refine ih (fun s hs => hA s (List.mem_cons_of_mem _ hs)) hB (a m) (a m') ?_ l hl
+    intro k hk
+    have ca := hA a (List.mem_cons_self ..)
+    by_cases hf : FA k
+    · exact ca.dep m m' hag k hf
+    · rw [ca.frame m k hf, ca.frame m' k hf]; exact hag k hk
+  | @right b A B S _ ih =>
+    intro hA hB m m' hag l hl
+    show run S (b m) l = run A m' l
+    refine ih hA (fun s hs => hB s (List.mem_cons_of_mem _ hs)) (b m) m' ?_ l hl
+    intro k hk
+    have cb := hB b (List.mem_cons_self ..)
+    have hnb : ¬ FB k := by
+      rcases hk with h1 | h1
+      · exact disj k h1
+      · exact roB k h1
+    rw [cb.frame m k hnb]; exact hag k hk
+
+/-- … in particular from the same initial memory -/
+theorem interleave_private {Loc Val : Type} (FA FB R : Loc → Prop)
+    (disj : ∀ l, FA l → ¬ FB l) (roB : ∀ l, R l → ¬ FB l)
+    (A B S : List (Step Loc Val)) (h : Interleave A B S)
+    (hA : ∀ s ∈ A, Confined FA R s) (hB : ∀ s ∈ B, Confined FB R s) (m : Mem Loc Val) :
+    ∀ l, FA l → run S m l = run A m l :=
+  fun l hl => interleave_agree FA FB R disj roB h hA hB m m (fun _ _ => rfl) l (Or.inl hl)
+
+theorem interleave_symm {α : Type} {A B S : List α} (h : Interleave A B S) : Interleave B A S := by
+  induction h with
+  | nil => exact .nil
+  | left _ ih => exact .right ih
+  | right _ ih => exact .left ih
+
+/-- stack, `thread_local` variables and the members of the individual being hashed are private
+    to a (thread, individual) pair: different threads working on different individuals have
+    disjoint footprints -/
+theorem footprints_disjoint (t1 o1 t2 o2 : Nat) (ht : t1 ≠ t2) (ho : o1 ≠ o2) :
+    ∀ l, footprint t1 o1 l → ¬ footprint t2 o2 l := by
+  intro l h1 h2
+  cases l <;> simp only [footprint] at h1 h2
+  · exact ht (h1.symm.trans h2)
+  · exact ht (h1.symm.trans h2)
+  · exact ho (h1.symm.trans h2)
+
+/-- Two threads computing signatures of different individuals, all of whose steps stay inside
+    locals / parameters / `thread_local` storage / members of their own individual and read
+    otherwise only immutable data: whatever the scheduler does, each thread ends with exactly
+    what it computes when it runs alone. -/
+theorem signature_threads_independent {Val : Type} (t1 o1 t2 o2 : Nat) (ht : t1 ≠ t2) (ho : o1 ≠ o2)
+    (A B S : List (Step Place Val)) (h : Interleave A B S)
+    (hA : ∀ s ∈ A, Confined (footprint t1 o1) readOnly s)
+    (hB : ∀ s ∈ B, Confined (footprint t2 o2) readOnly s) (m : Mem Place Val) :
+    (∀ l, footprint t1 o1 l → run S m l = run A m l) ∧
+    (∀ l, footprint t2 o2 l → run S m l = run B m l) := by
+  have ro : ∀ (t o : Nat) (l : Place), readOnly l → ¬ footprint t o l := by
+    intro t o l hr hf
+    cases l <;> simp only [readOnly, footprint] at hr hf
+  exact ⟨interleave_private _ _ readOnly (footprints_disjoint t1 o1 t2 o2 ht ho) (ro t2 o2)
+           A B S h hA hB m,
+         interleave_private _ _ readOnly (footprints_disjoint t2 o2 t1 o1 (Ne.symm ht) (Ne.symm ho))
+           (ro t1 o1) B A S (interleave_symm h) hB hA m⟩
+
+/-- non-vacuity: "append a byte taken from my individual to my thread_local buffer" is confined -/
+example : Confined (footprint 1 10) readOnly
+    (fun (m : Mem Place Nat) l => if l = .tls 1 0 then m (.tls 1 0) + m (.member 10 3) + m (.immutable 7) else m l) := by
+  constructor
+  · intro m l hl
+    by_cases e : l = .tls 1 0
+    · subst e; exact absurd rfl hl
+    · simp [e]
+  · intro m m' hag l _
+    by_cases e : l = .tls 1 0
+    · simp only [e, if_true]
+      rw [hag (.tls 1 0) (Or.inl rfl), hag (.member 10 3) (Or.inl rfl), hag (.immutable 7) (Or.inr trivial)]
+    · simp only [e, if_false]
+      exact hag l (Or.inl ‹_›)
+
+/-- … whereas a step through a process-wide variable is not (this is the `static` scratch buffer) -/
+example : ¬ Confined (footprint 1 10) readOnly
+    (fun (m : Mem Place Nat) l => if l = .shared 0 then m (.member 10 3) else m l) := by
+  intro c
+  have := c.frame (fun _ => 0) (.shared 0) (by simp [footprint])
+  have h2 := c.frame (fun l => if l = .member 10 3 then 1 else 0) (.shared 0) (by simp [footprint])
+  simp at h2
+
+/-! ### generated obligations: what the functions reachable from `signature()` touch
+    (`GenSigPath`, regenerated from the clang AST on every run) -/
+
+/-- every variable with static storage duration mentioned on the signature path is `thread_local`,
+    const, or on the justified list -/
+theorem sigpath_no_shared_state : ∀ u ∈ GenSigPath.globals, u.ok = true := by decide
+
+/-- every callee outside namespace vita is on the list of re-entrant library functions -/
+theorem sigpath_externals_reentrant : ∀ e ∈ GenSigPath.externals, e ∈ reentrantExternals := by decide
+
+/-- the only member a const function of the path writes is the cache itself -/
+theorem sigpath_writes_cache_only : ∀ w ∈ GenSigPath.thisWrites, w.2 = "signature_" := by decide
+
+/-- no non-const member function is called on an object that is not local / parameter / `*this` -/
+theorem sigpath_no_foreign_mutation : GenSigPath.foreignCalls = [] := by decide
+
+end sigpath
 
 end Vita.C03
